@@ -8,7 +8,7 @@ from .common import Check, cmat, fmt_ints, fmt_matrix, kv
 THEOREMS = [
     "Tsp.tourLen_eq_cyclicSum", "Tsp.tourLen?_noOOB", "Tsp.tour_between_bounds",
     "Tsp.mkInstance_spec", "Tsp.symmetric_flag_iff", "Tsp.stored_exact_and_fits",
-    "Tsp.instance_tour_bounds", "Tsp.tourLen_no_overflow",
+    "Tsp.instance_tour_bounds", "Tsp.tourLen_no_overflow", "Tsp.mkInstance_accepts",
 ]
 
 
